@@ -181,6 +181,7 @@ fn tracker_visit_expr<'a>(expr: &ast::Expr<'a>, state: &mut AssignmentTracker<'a
             tracker_visit_expr(&expr.subscript_expr, state);
         }
         ast::Expr::Slice(slice) => {
+            tracker_visit_expr(&slice.expr, state);
             tracker_visit_expr_opt(&slice.start, state);
             tracker_visit_expr_opt(&slice.stop, state);
             tracker_visit_expr_opt(&slice.step, state);
@@ -219,8 +220,10 @@ fn track_walk<'a>(node: &ast::Stmt<'a>, state: &mut AssignmentTracker<'a>) {
         ast::Stmt::EmitRaw(_) => {}
         ast::Stmt::ForLoop(stmt) => {
             state.push();
-            state.assign("loop");
+            // the iterable is evaluated before the loop (and its `loop`
+            // variable) exists.
             tracker_visit_expr(&stmt.iter, state);
+            state.assign("loop");
             track_assign(&stmt.target, state);
             tracker_visit_expr_opt(&stmt.filter_expr, state);
             stmt.body.iter().for_each(|x| track_walk(x, state));
@@ -241,17 +244,20 @@ fn track_walk<'a>(node: &ast::Stmt<'a>, state: &mut AssignmentTracker<'a>) {
         ast::Stmt::WithBlock(stmt) => {
             state.push();
             for (target, expr) in &stmt.assignments {
-                track_assign(target, state);
+                // the value is evaluated before the target is assigned
                 tracker_visit_expr(expr, state);
+                track_assign(target, state);
             }
             stmt.body.iter().for_each(|x| track_walk(x, state));
             state.pop();
         }
         ast::Stmt::Set(stmt) => {
-            track_assign(&stmt.target, state);
+            // the value is evaluated before the target is assigned
             tracker_visit_expr(&stmt.expr, state);
+            track_assign(&stmt.target, state);
         }
         ast::Stmt::AutoEscape(stmt) => {
+            tracker_visit_expr(&stmt.enabled, state);
             state.push();
             stmt.body.iter().for_each(|x| track_walk(x, state));
             state.pop();
@@ -260,12 +266,15 @@ fn track_walk<'a>(node: &ast::Stmt<'a>, state: &mut AssignmentTracker<'a>) {
             state.push();
             stmt.body.iter().for_each(|x| track_walk(x, state));
             state.pop();
+            tracker_visit_expr(&stmt.filter, state);
         }
         ast::Stmt::SetBlock(stmt) => {
-            track_assign(&stmt.target, state);
+            // body and filter are evaluated before the target is assigned
             state.push();
             stmt.body.iter().for_each(|x| track_walk(x, state));
             state.pop();
+            tracker_visit_expr_opt(&stmt.filter, state);
+            track_assign(&stmt.target, state);
         }
         #[cfg(feature = "multi_template")]
         ast::Stmt::Block(stmt) => {
